@@ -77,6 +77,11 @@ func (m *Machine) callBuiltin(b *ssa.Builtin, args []Val, caller *frame, site ss
 		case *ChanObj:
 			return BV(64, uint64(len(x.q)))
 		}
+	case "ssa:wrapnilchk":
+		if p, ok := args[0].(Ptr); ok && p.C == nil {
+			m.rtPanic("value method called using nil pointer")
+		}
+		return args[0]
 	case "cap":
 		switch x := args[0].(type) {
 		case SliceV:
